@@ -360,6 +360,12 @@ package config
 //@ func GitLab.validate [C18]
 //@   ensures result == nil ==> gl.Project > 0 && gl.MaxComments >= 0
 
+// C18 (aggregate / annotation): an accepted block names what it applies to and, for aggregate, what to keep or strip.
+//@ func AggregateSettings.validate [C18]
+//@   ensures result == nil ==> ag.Name != "" && (len(ag.Keep) != 0 || len(ag.Strip) != 0)
+//@ func AnnotationSettings.validate [C18]
+//@   ensures result == nil ==> as.Key != ""
+
 // C18 (discovery): the uri of a prometheusQuery discovery block is handed to promapi.NewPrometheus, whose requests
 // parse it with the error dropped (Prometheus.doRequest): it must parse when the configuration is loaded.
 //@ func PrometheusQuery.validate [C18]
